@@ -150,9 +150,11 @@ def _build(desc, ctx):
                 fk["alias_from"] = list(f["alias_from"])
             if f.get("required") is not None:
                 fk["required"] = f["required"]
-            for a in ("defer_default", "readonly", "writeonly", "deprecated"):
+            for a in ("defer_default", "readonly", "writeonly"):
                 if f.get(a):
                     fk[a] = True
+            if f.get("deprecated"):
+                fk["deprecated"] = f["deprecated"]      # True, or the name of the replacing field
             for a in ("no_input", "no_output"):
                 if f.get(a):
                     fk[a] = f[a]
@@ -970,6 +972,10 @@ def gen_data(rng, depth=1, nested=False, cls_mode="rand", pool=None, name=None):
             "ignore_required": rng.random() < 0.1, "no_default": rng.random() < 0.1,
             "defer_default": rng.random() < 0.08}
     fields = [gen_field(rng, ATT[i], depth, mode, pool) for i in range(n)]
+    # Field(deprecated='<name of the field that replaces it>')
+    if len(fields) >= 2 and rng.random() < 0.2:
+        i, j = rng.sample(range(len(fields)), 2)
+        fields[i]["deprecated"] = fields[j].get("alias") or fields[j]["attname"]
     # a getter-only property
     if not nested and rng.random() < 0.2:
         pt = rng.choice([{"k": "plain", "p": "int"}, {"k": "plain", "p": "str"}])
@@ -1008,8 +1014,8 @@ def _samples(t, rng, n=2):
         return [5, "five"][:n]
     if k == "plain":
         return {
-            "int": [3, 12, -4], "float": [1.5, 2.25, -0.75], "str": ["ab", "cd", "e"], "bool": [True, False, True],
-            "null": [None, None, None], "decimal": ["1.5", "2.25", "40"], "date": ["2020-01-02", "2021-03-04", "1999-12-31"],
+            "int": [3, 12, 0], "float": [1.5, 2.25, 0.0], "str": ["ab", "cd", "e"], "bool": [True, False, True],
+            "null": [None, None, None], "decimal": ["1.5", "2.25", "0.00"], "date": ["2020-01-02", "2021-03-04", "1999-12-31"],
             "datetime": ["2020-01-02T03:04:05", "2021-03-04T05:06:07", "1999-12-31T23:59:59"],
             "time": ["03:04:05", "05:06:07", "23:59:59"], "timedelta": [90, 3600, 86401],
             "uuid": ["12345678-1234-5678-1234-567812345678", "87654321-4321-8765-4321-876543218765", "00000000-0000-0000-0000-000000000001"],
@@ -1025,7 +1031,7 @@ def _samples(t, rng, n=2):
         elif t["p"] == "str":
             pool = [s for s in STR_POOL if _sat_str(c, s)]
         else:
-            pool = ["1.5", "2.25", "40", "0.125"]
+            pool = ["1.5", "2.25", "0", "0.0", "40", "0.125"]
         if not pool:
             return []
         out = [pool[0]]
@@ -1152,13 +1158,14 @@ def variants(v, rng):
     if isinstance(v, bool):
         out += [str(v).lower(), int(v)]
     elif isinstance(v, int):
-        out += [str(v), float(v), v + 1, -v, v * 1000003]
+        out += [str(v), float(v), v + 1, -v, v * 1000003, 0, "0", "-0", "0.00"]
     elif isinstance(v, float):
-        out += [str(v), v + 0.5, int(v)]
+        out += [str(v), v + 0.5, int(v), 0.0, -0.0, 0, "0.0", "-0.00"]
     elif isinstance(v, str):
         out += [v + "z", v.upper(), v[:1], 7]
         if re.fullmatch(r"-?\d+(\.\d+)?", v):
-            out += ["1e20", "-123456789012345678901234567890", "NaN", "0.5", "1e-400"]
+            out += ["1e20", "-123456789012345678901234567890", "NaN", "0.5", "1e-400",
+                    "0", "0.0", "0.00", "-0.0", "-0.00", "0E+3", "0E-7", 0, 0.0, -0.0]
     elif isinstance(v, list):
         out += [v + v[:1], v[:-1], [variants(x, rng)[0] if variants(x, rng) else x for x in v], "x"]
     elif isinstance(v, dict):
@@ -1873,11 +1880,12 @@ class C13(Check):
                 lib = js.get(key)
                 if lib is None:
                     continue
-                for k, o in enumerate(outs):
-                    if (o.get("flags") or {}).get("nonfinite"):
-                        continue
-                    if lib["valid"][k] is False:
-                        return f"outputs-validate: parser output {json.dumps(o['enc'])[:200]} does not validate against the {key} document"
+                failing = [(k, o) for k, o in enumerate(outs)
+                           if not (o.get("flags") or {}).get("nonfinite") and lib["valid"][k] is False]
+                # name an output that no known class could explain first
+                failing.sort(key=lambda ko: bool((ko[1].get("flags") or {}).get("unsafe_dec")))
+                for k, o in failing[:1]:
+                    return f"outputs-validate: parser output {json.dumps(o['enc'])[:200]} does not validate against the {key} document"
             for o in io.get("outs", []):
                 if "enc_error" in o and not (o.get("flags") or {}).get("nonfinite") and not (o.get("flags") or {}).get("foreign"):
                     return f"outputs-validate: a parser output cannot be JSON encoded ({o['enc_error']})"
